@@ -24,6 +24,7 @@ def run(ctx):
     import numpy as np
     from dtaidistance import dtw, dtw_ndim
     from dtaidistance.clustering.kmeans import KMeans
+    monitors.guard_backtracking(ctx)      # bounded progress for every back-tracking call, wherever it is made
     rng = ctx.rng
     N = ctx.scale(500, 5000)
     for it in range(N):
